@@ -209,18 +209,21 @@ RULE = ("Real kvarn::handle_connection on loopback TCP pairs, TLS by a rustls Se
         "http/1.1, or plain TCP) to host A and over one HTTP/2 connection (h2 crate client over tokio-rustls, ALPN h2) to an identical "
         "fresh host B; the ALPN result is asserted. Hosts: response cache on/off (every directed history runs on both) x handler pages "
         "(compressible text with ServerCachePreference Full / None, QueryMatters page echoing path?query, method echo, a page whose "
-        "handler sets its own content-length, empty body, 404/500 handler pages) + pages whose handlers leave CONNECTION-SPECIFIC "
+        "handler sets its own content-length, empty body, 404/500 handler pages, 204 pages on which the handler left a body - one also a "
+        "transfer-encoding -, a page with two vary rules) + pages whose handlers leave CONNECTION-SPECIFIC "
         "headers: every single one of keep-alive, proxy-connection, transfer-encoding, upgrade, te (gzip / trailers) WITHOUT a connection "
         "header, all at once, with connection: close / keep-alive / upgrade, connection nominating a custom header, and three pages per "
         "random host with seeded random subsets + STREAMED responses (a ResponsePipeFuture writing known chunks incl. an empty one: "
         "with_future_and_len, with_future + the handler's own content-length, a Response body followed by a future, 81 kB = more than an "
-        "HTTP/2 window, a slow future, an empty stream, an error status; extensions::stream_body() on files of 0 B / 180 B / 100 kB) + "
+        "HTTP/2 window, a slow future, an empty stream, an error status, and - as the LAST request of a history - with_future WITHOUT any "
+        "length: HTTP/2 ends the stream, HTTP/1 answers connection: close and has to end the connection within 2.5 s of its last byte, "
+        "the client reads the body up to that end; extensions::stream_body() on files of 0 B / 180 B / 100 kB) + "
         "files (text, binary, index.html) + missing paths + unsafe paths (/./x) + echo handlers that read the request body completely "
         "(/echo, read_to_bytes(1 MiB)) or only its first 3 / 100 / 20000 / 33000 bytes - and echo UNCUT what read_to_bytes returned; "
         "Package menus (or_insert / insert / remove / append, 0-3 extensions in priority order); two hosts per run with the request "
         "LIMITER on (the first k requests pass, the rest - GET, HEAD, POST with a body, and the framing sentinel - are answered 429 by "
         "handle_connection); two hosts per run with 64 KiB and 1 MiB compressible pages (identity / gzip / br, cold and cached, ranged, HEAD; "
-        "the h2 client keeps 65535-byte windows). Requests: GET/HEAD/POST/OPTIONS/PUT/DELETE/PATCH x Accept-Encoding {none, gzip, br, identity, "
+        "the h2 client keeps 65535-byte windows). Requests: GET/HEAD/POST/OPTIONS/PUT/DELETE/PATCH/PURGE (an extension method) x Accept-Encoding {none, gzip, br, identity, "
         "gzip;q=0, *;q=0 identity;q=0 (406)} x Range around the length of the ENCODED representation and of the streamed files (a>b, "
         "a=len, beyond the end, open forms) x If-Modified-Since (future / past / garbage; cold and warm cache) x Origin x query strings x "
         "REQUEST BODIES of 1 B - 150 kB (around the limits of the partial readers, around the 16384-byte DATA frame size and around the "
@@ -231,9 +234,12 @@ RULE = ("Real kvarn::handle_connection on loopback TCP pairs, TLS by a rustls Se
         "such requests; (every request answered on HTTP/1.1?, on HTTP/2?) against the model's connection loop and the specification "
         "(yes, yes); a 'no' counts only if three runs agree. Oracles: (a) parity itself, independent of the model: status, all headers "
         "except {connection, keep-alive, proxy-connection, transfer-encoding, upgrade, te, content-length, alt-svc} as sorted multisets "
-        "(last-modified value masked) and body bytes of the two protocols are equal, a HEAD answer has no body, content-length = body "
-        "length; (b) both equal the Coq specification proto.pair_spec (range_spec of C09 on the layer-4 response - not on streamed ones -, "
-        "package menu on end-to-end headers, body ++ streamed bytes unless HEAD, the limiter's page as it is); (c) the complete wire "
+        "(last-modified value masked) and body bytes of the two protocols are equal, a HEAD answer and a 1xx/204/304 answer have no body, "
+        "content-length = body length (none only when the body ended with the connection), never content-length next to "
+        "transfer-encoding on HTTP/1.1, only the last answer of a history may end the HTTP/1.1 connection; (b) both equal the Coq "
+        "specification proto.pair_spec (no body for 1xx/204/304, range_spec of C09 on the layer-4 response - not on streamed ones -, "
+        "the 416 page with vary: accept-encoding, range + the names of the path's vary rules, package menu on end-to-end headers, "
+        "body ++ streamed bytes unless HEAD, the limiter's page as it is); (c) the complete wire "
         "answers (version, every header incl. content-length / connection / alt-svc) equal the extracted pipe-level model send_pipe H1 / "
         "H2. The layer-4 response of every request (kvarn::handle_cache's CacheReply), WHAT ITS FUTURE WRITES (driven in process through "
         "a plain pipe) with the overridden length, the host's 416 page and the limiter's 429 page are observed in process on a third "
@@ -253,8 +259,10 @@ RULE = ("Real kvarn::handle_connection on loopback TCP pairs, TLS by a rustls Se
         "read_to_bytes(l) on a body of 1 B - 150 kB sent over HTTP/1.1 (a seeded part of it in the same write as the head) and over "
         "HTTP/2 in DATA frames of seeded lengths (1 .. 16384, one send_data each): what each call returned on each protocol against "
         "the transcribed loops (h1_read_to_bytes / h2_read_loop) and the specification (the first min(l, length) bytes on both). "
-        "(4) proto.sbody: extensions::stream_body() in process on files and Ranges (inside, across, at and beyond the end): bytes written "
-        "and length announced against stream_plan. A failure of an exchange that is a time-out or a connection that cannot be opened "
+        "(4) proto.sbody: extensions::stream_body() in process on files and Ranges (inside, across, at and beyond the end): bytes written, "
+        "length announced, status and content-range against stream_plan / stream_head, and against an oracle written in Python (the "
+        "requested part of the file, length = bytes written, 206 + content-range: bytes first-last/length for a Range, 200 without; "
+        "416 exactly when the Range starts at or after the end). A failure of an exchange that is a time-out or a connection that cannot be opened "
         "is never an outcome (the case is run again, then counted as not executed); any other failure is an outcome only when it repeats "
         "identically on three runs with fresh hosts. distinct_nontrivial = distinct (input, sequence of (status, cache/encoding class)) pairs")
 ASSUMPTIONS = [
@@ -268,10 +276,20 @@ ASSUMPTIONS = [
     "answer - transcribed from the harness's raw HTTP/1.1 client and observed behaviour of the h2 0.4 client, not from a specification "
     "of all clients",
     "streamed responses: the length a handler announces (with_future_and_len, or its own content-length with with_future) is the "
-    "number of bytes Response::body and the future write (fut_framed) - proved for extensions::stream_body() as repaired "
-    "(stream_body_framed), a precondition on other handlers; a future that gives up at the first failed write; WebSocket futures "
-    "(no length at all: not a response body) and Post extensions are outside; no range is applied to a streamed response (kvarn's "
-    "is_stream) - stream_body slices the file itself",
+    "number of bytes Response::body and the future write, or no length is announced at all and no transfer-encoding either "
+    "(fut_framed) - proved for extensions::stream_body() as repaired (stream_body_framed), a precondition on other handlers; a "
+    "handler that frames its stream itself (transfer-encoding: chunked on a with_future response) is outside; a future that gives up "
+    "at the first failed write; WebSocket futures (a 101 head: the future is the protocol switch, not a response body - the "
+    "exception of repair d63bba7 is transcribed, a HEAD request answered 101 is outside the history theorems) and Post extensions "
+    "are outside; no range is applied to a streamed response (kvarn's is_stream) - stream_body slices the file itself "
+    "(stream_body_as_in_memory: as apply_to_response does for a body in memory)",
+    "an answer that ends the HTTP/1 connection (a streamed body of unknown length, repair 7334433) is the LAST of a history on one "
+    "connection (pair_history_answered; close_delimited_not_last_refuted shows what follows it is not answered on that connection "
+    "while the HTTP/2 connection goes on - the client has to open another connection: a difference of connections, not of answers); "
+    "the client's view of such an answer (body = everything up to the end of the connection, which the server brings about itself) is "
+    "part of receive",
+    "the names of the vary rules of a request's path (the 416 page advertises them, repair 21f0154) are the host's configuration: an "
+    "input of model and specification, taken from the generator's own host description",
     "stream_independence: the handler contract of C03 (response a function of method class, path, vary tuple and - for "
     "QueryMatters - the query; uniform query-matters-ness per path; error responses uncacheable), requests without "
     "If-Modified-Since (a conditional request is answered 304 or 200 depending on whether another stream has filled the cache "
@@ -309,13 +327,18 @@ TRUSTED = [
     "modelled (Model/Protocols.v): src/lib.rs handle_connection (alt-svc append, per-request task for HTTP/2, the HTTP/1 request loop "
     "with the fate of a request body: Http1Body::new's early bytes, read_to_bytes(l) taking min(declared, l), Http1Body::drain of "
     "fix dfe4d54 - and the loop before that fix as the variant drain = false; the limiter's 429 / the 409 answer: send_direct), "
-    "SendKind::send (range application incl. the 416 replacement - skipped for streamed responses -, the overridden length, "
-    "ensure_length, ensure_version, resolve_package, then the OPERATIONS ON THE PIPE in order: send_response(head, false), the body "
-    "unless HEAD, the future's writes - not for HEAD: fix d63bba7, head_future = true is the code before -, close), src/application.rs "
-    "ResponsePipe::{ensure_length, ensure_version, send_response} and ResponseBodyPipe::{send_with_maybe_close, close} HTTP/1 and "
-    "HTTP/2 arms (connection: keep-alive rule, remove_connection_specific_headers, END_STREAM, send_data failing on an ended stream), "
-    "Body::read_to_bytes HTTP/1 (Http1Body) and HTTP/2 (the DATA-frame loop) arms; utils::get_body_length_request; "
-    "extensions::stream_body's range arithmetic (stream_plan; fix d675f8a, clamp = false is the code before); "
+    "SendKind::send as merged on /repo main (the body of a 1xx/204/304 dropped: 89e2956; range application - not to a 304: 9ae9b1a - "
+    "incl. the 416 replacement with vary::apply_header_from_settings: 21f0154 - skipped for streamed responses -, the overridden "
+    "length, ensure_length, ensure_version, resolve_package, then the OPERATIONS ON THE PIPE in order: send_response(head, false), "
+    "the body unless HEAD, the future's writes - not for HEAD unless the head is a 101: fix d63bba7, head_future = true is the code "
+    "before -, close), handle_connection's close_delimited (7334433: the HTTP/1 connection is not reused after a streamed response "
+    "of unknown length), src/application.rs ResponsePipe::{ensure_length (HTTP/1: content-length set, transfer-encoding removed: "
+    "3c296af), ensure_version, send_response (HTTP/1: connection: close when nothing frames the body, else the keep-alive rule)} and "
+    "ResponseBodyPipe::{send_with_maybe_close, close} HTTP/1 and HTTP/2 arms (remove_connection_specific_headers, END_STREAM, "
+    "send_data failing on an ended stream), Body::read_to_bytes HTTP/1 (Http1Body with its offset, as repaired for C07: 9c56fae, "
+    "2820a60, eedb756) and HTTP/2 (the DATA-frame loop) arms; utils::get_body_length_request; vary::get_header / apply_header for the "
+    "416 page; extensions::stream_body's range arithmetic, status and content-range (stream_plan / stream_head; fix d675f8a, "
+    "clamp = false is the code before); "
     "h2 0.4 proto/streams/send.rs check_headers (the only h2 logic transcribed)",
     "NOT modelled, exercised only: rustls (handshake, records, ALPN selection), h2 (HPACK, flow control incl. the WINDOW_UPDATEs "
     "Body::read_to_bytes releases, the windows a 1 MiB / streamed 81 kB answer needs, and the RST_STREAM(NO_ERROR) after an answer "
@@ -333,7 +356,7 @@ TRUSTED = [
     "the limit: that yields the specification 'the first l bytes'); the classification of failures into harness trouble / outcome "
     "(is_trouble, three agreeing runs)",
 ]
-LEVEL_TEXT = ("partial. Machine-checked Coq theorems (25, statements pinned) over an executable model of the protocol-dependent path above "
+LEVEL_TEXT = ("partial. Machine-checked Coq theorems (30, statements pinned) over an executable model of the protocol-dependent path above "
               "the shared layer 4 of C03: protocol_parity / send_parity (for every host configuration, cache state, request, layer-4 "
               "response, TLS or plain HTTP/1 connection and oblivious Package chain the HTTP/1.1 and HTTP/2 answers are equal after "
               "dropping the version and exactly the headers connection, keep-alive, proxy-connection, transfer-encoding, upgrade, te, "
@@ -345,7 +368,13 @@ LEVEL_TEXT = ("partial. Machine-checked Coq theorems (25, statements pinned) ove
               "streamed_answer and stream_parity (a response with a streaming future, every chunk list, method and protocol: the "
               "client receives one well-framed response whose body is Response::body followed by what the future wrote - nothing "
               "for HEAD - and the two protocols agree up to the same filter, whenever the announced length is the number of bytes "
-              "written; stream_body_framed: extensions::stream_body as repaired meets that for every file and Range), "
+              "written OR NO LENGTH IS ANNOUNCED: then the HTTP/1 body ends with the connection, which the model closes, the HTTP/2 "
+              "body with the stream; stream_body_framed and stream_body_as_in_memory: extensions::stream_body as repaired on /repo "
+              "main meets that for every file and Range and answers a Range exactly as apply_to_response does for a body in "
+              "memory - 416 / 206, content-range, bytes), the repairs made for other properties as they show on both protocols "
+              "(range_not_satisfiable_page: the 416 page carries the vary header of the path's rules; bodiless_status_answer: no "
+              "body after 1xx/204/304; ensure_length's removal of transfer-encoding and the connection: close rule are part of "
+              "send / send_pipe and hence of every parity theorem), "
               "limiter_answer_parity (the 429 / 409 answers handle_connection sends itself); stream_independence (for every set of "
               "concurrent streams and EVERY schedule of the tasks' lookup and completion blocks over the shared response cache, every "
               "stream receives byte for byte the HTTP/2 answer of its own request alone, under C03's handler contract - cancelled "
@@ -356,9 +385,12 @@ LEVEL_TEXT = ("partial. Machine-checked Coq theorems (25, statements pinned) ove
               "application in the state its predecessors left, and the two answer sequences are equal up to the same filter; "
               "hypothesis: no answer panics, discharged by send_never_panics), read_to_bytes_parity (for every body, every cut "
               "into DATA frames, every amount arriving with the HTTP/1 head and every limit the first read_to_bytes(l) returns the "
-              "first l bytes on both protocols), pair_history_answered (the executable history model of the correspondence - "
-              "ordinary, streamed and limiter-answered exchanges - equals its specification on every input of the domain); and "
-              "six witnesses: head_end_of_stream_refuted (why the head must not carry END_STREAM when Response::body is empty), "
+              "first l bytes on both protocols; read_to_bytes_resumes: with the repaired Http1Body a reader that took part of the "
+              "body through AsyncRead gets the bytes that follow), pair_history_answered (the executable history model of the "
+              "correspondence - ordinary, streamed, unknown-length and limiter-answered exchanges - equals its specification on "
+              "every input of the domain in which at most the last answer ends the HTTP/1 connection); and "
+              "seven witnesses: close_delimited_not_last_refuted (after a streamed answer of unknown length the HTTP/1 connection "
+              "answers nothing more, the HTTP/2 one does: the client opens another connection; each answer is the same), head_end_of_stream_refuted (why the head must not carry END_STREAM when Response::body is empty), "
               "unread_request_body_v0_refuted (the loop before fix dfe4d54), head_stream_v0_refuted (before fix "
               "d63bba7 a HEAD for a streamed response got the streamed bytes: broken framing on both protocols), "
               "stream_body_v0_refuted (before fix d675f8a stream_body announced more bytes than it sent for a Range beyond the "
@@ -371,7 +403,9 @@ LEVEL_TEXT = ("partial. Machine-checked Coq theorems (25, statements pinned) ove
               "by that run: everything inside the h2 and rustls crates - HPACK, flow control, frame splitting and scheduling, stream "
               "state machine, RST_STREAM handling, TLS and ALPN - and the tokio scheduler; the concurrency theorem is about "
               "sequentially consistent interleavings of two atomic blocks per task. Two kvarn defects found by this round were "
-              "repaired (d63bba7, d675f8a) and are part of the claim, as is the former known class h1-unread-request-body (dfe4d54). "
+              "repaired (d63bba7, d675f8a) and are part of the claim, as is the former known class h1-unread-request-body (dfe4d54); "
+              "the model describes /repo main with the repairs of all properties merged (7334433, 89e2956, 3c296af, 21f0154, "
+              "9ae9b1a, the Http1Body repairs of C07, the request-parser repairs aca6293 / 2dbf4ed on the input side). "
               "Two known classes, both outside the property's quantifier: h1-undeclared-request-body (kvarn's HTTP/1 reader ignores "
               "the content-length of GET / HEAD / OPTIONS by design, so body bytes of a GET that arrive after its head break the "
               "HTTP/1.1 connection and not the HTTP/2 one) and h2-body-read-again (a handler calling read_to_bytes a second time "
@@ -649,7 +683,8 @@ def range_values(rng):
 
 
 # methods whose content-length kvarn's HTTP/1 reader honours (utils::get_body_length_request)
-BODY_METHODS = (b"POST", b"PUT", b"DELETE", b"PATCH")
+# (PURGE: an extension method - any token is a method on both protocols since repair 2dbf4ed of the HTTP/1 request parser)
+BODY_METHODS = (b"POST", b"PUT", b"DELETE", b"PATCH", b"PURGE")
 BODY_SIZES = [1, 2, 5, 64, 99, 100, 101, 700, 5000, 5000, 16384, 16385, 19999, 20000, 20001, 32768, 33001, 40000, 40000, 65535, 65536, 70000,
               150000]
 
@@ -681,7 +716,7 @@ def rand_body(rng, n):
 
 def rand_request(rng, focus=None):
     t = rng.choice(focus) if focus and rng.random() < 0.7 else rng.choice(PATHS)
-    m = rng.choice([b"GET", b"GET", b"GET", b"GET", b"HEAD", b"HEAD", b"POST", b"OPTIONS", b"PUT", b"POST", b"PUT", b"DELETE", b"PATCH"])
+    m = rng.choice([b"GET", b"GET", b"GET", b"GET", b"HEAD", b"HEAD", b"POST", b"OPTIONS", b"PUT", b"POST", b"PUT", b"DELETE", b"PATCH", b"PURGE"])
     hs = []
     if rng.random() < 0.55:
         ae = rng.choice(AES)
@@ -759,7 +794,8 @@ DIRECTED_HISTORIES = [
     # error pages, unsafe paths, methods
     [R(b"GET", b"/missing"), R(b"HEAD", b"/missing"), R(b"GET", b"/./x"), R(b"HEAD", b"/./x"), R(b"POST", b"/f.txt"), R(b"OPTIONS", b"/f.txt"),
      R(b"PUT", b"/p"), R(b"GET", b"/nf", [(b"accept-encoding", b"gzip")]), R(b"GET", b"/ise"), R(b"GET", b"/p", [(b"accept-encoding", b"*;q=0, identity;q=0")]),
-     R(b"GET", b"/missing", [(b"range", b"bytes=0-9")])],
+     R(b"GET", b"/missing", [(b"range", b"bytes=0-9")]), R(b"PURGE", b"/p"), R(b"PURGE", b"/echo", [(b"content-length", b"5")], b"purge"),
+     R(b"PURGE", b"/f.txt", [(b"content-length", b"700")], b"x" * 700), R(b"GET", b"/m")],
     # request bodies
     [R(b"POST", b"/echo", [(b"content-length", b"5")], b"hello"), R(b"POST", b"/echo", [(b"content-length", b"0")]),
      R(b"POST", b"/echo", [(b"content-length", b"3000")], b"z" * 3000), R(b"GET", b"/echo"), R(b"PUT", b"/echo", [(b"content-length", b"2")], b"ab"),
